@@ -116,6 +116,7 @@ var vhC09Results = [][2]string{
 type vhC09Param struct {
 	name, loc, typ string
 	alias          string // the name in the schema (annotation option `name`), when not empty
+	validate       string // annotation option `validate`, when not empty
 }
 
 type vhC09Route struct {
@@ -140,8 +141,15 @@ func vhC09Source(routes []vhC09Route) string {
 		sb.WriteString("// @Method(" + r.verb + ")\n// @Route(" + r.path + ")\n")
 		for _, p := range r.params {
 			if p.loc != "" { // a context.Context parameter is not annotated
+				var opts []string
 				if p.alias != "" {
-					sb.WriteString("// @" + p.loc + "(" + p.name + ", { name: " + strconv.Quote(p.alias) + " })\n")
+					opts = append(opts, "name: "+strconv.Quote(p.alias))
+				}
+				if p.validate != "" {
+					opts = append(opts, "validate: "+strconv.Quote(p.validate))
+				}
+				if len(opts) > 0 {
+					sb.WriteString("// @" + p.loc + "(" + p.name + ", { " + strings.Join(opts, ", ") + " })\n")
 				} else {
 					sb.WriteString("// @" + p.loc + "(" + p.name + ")\n")
 				}
@@ -524,7 +532,7 @@ func vh_C09_front_cross_T() {
 	engine := symxChoice("engine", 5)
 	body := symxChoice("body", len(vhC09BodyTypes))
 	res := symxChoice("result", len(vhC09Results))
-	pt := []int{1, 6, 7, 12}[symxChoice("ptype", 4)]                                                                  // int, Kind, other.Kind, []string
+	pt := []int{1, 6, 7, 12}[symxChoice("ptype", 4)]                                                                                                                     // int, Kind, other.Kind, []string
 	symxAssume(!strings.HasPrefix(vhC09BodyTypes[body], "map[") && !strings.HasPrefix(vhC09BodyTypes[body], "[]*") && !strings.HasPrefix(vhC09Results[res][0], "(map[")) // recorded findings, see the _Q harnesses
 	cfg := vhC09Config(engine, "")
 	cfg.RoutesConfig.ValidateResponsePayload = vhC09Flag("validateResponsePayload")
@@ -632,4 +640,43 @@ func vh_C09_front_route_texts_Q() {
 	// a text the annotation grammar does not take leaves the method without a route (C01's subject): whether the
 	// handler exists is not asked here, only that whatever is written compiles
 	vhC09Finish(run, ok, "routes", engine)
+}
+
+// validation rules are copied into string literals of the handler as well
+var vhC09Rules = []string{"required", "gt=1", "oneof=1 2", "oneof='1 2' 3", "required,lt=10", "excludesall=<>&", "ne=\"", "contains=\\"}
+
+func vh_C09_front_validation_rules_Q() {
+	engine := symxChoice("engine", 5)
+	n := symxChoice("rule", len(vhC09Rules))
+	loc := symxChoice("loc", 3)
+	p := vhC09Param{name: "p1", loc: []string{"Query", "Header", "Body"}[loc], typ: "string", validate: vhC09Rules[n]}
+	verb := "GET"
+	if loc == 2 {
+		p.typ, verb = "Model", "POST"
+	}
+	routes := []vhC09Route{{name: "Op", verb: verb, path: "/op", params: []vhC09Param{p}, result: 1}}
+	run, ok := vhC09Generate(routes, vhC09Config(engine, ""))
+	vhC09Finish(run, ok, "routes", engine, "Op")
+}
+
+// C05, seen from the rendering side: the validation rules a parameter declares are the rules its handler hands to
+// the validator - character for character, whatever the rule contains (quotes, angle brackets, ampersands, backslashes)
+func vh_C05_front_validation_rules_Q() {
+	engine := symxChoice("engine", 5)
+	n := symxChoice("rule", len(vhC09Rules))
+	loc := symxChoice("loc", 3)
+	p := vhC09Param{name: "p1", loc: []string{"Query", "Header", "Body"}[loc], typ: "string", validate: vhC09Rules[n]}
+	verb := "GET"
+	if loc == 2 {
+		p.typ, verb = "Model", "POST"
+	}
+	routes := []vhC09Route{{name: "Op", verb: verb, path: "/op", params: []vhC09Param{p}, result: 1}}
+	run, ok := vhC09Generate(routes, vhC09Config(engine, ""))
+	if !ok {
+		return
+	}
+	want := strconv.Quote(vhC09Rules[n])
+	want = want[1 : len(want)-1] // the rule as it reads inside a Go string literal
+	symxAssert(strings.Contains(run.text, want), "C05.front.declared-validation-rule-reaches-the-handler-verbatim")
+	symxCover("C05.front.rule-in-handler")
 }
